@@ -105,6 +105,7 @@ HISTORY = [
     ["genalias"], ["picklealias"], ["hook"], ["config"], ["exprfault"],
     ["bindfail", "new-typeguard"], ["bindfail", "new-beartype"], ["bindfail", "old-typeguard"], ["bindfail", "none"],
     ["ctxraise", "Exception"], ["ctxraise", "KeyboardInterrupt"],
+    ["nestedunion"], ["tree", "p", "T", "tuple3", "none"],
 ]
 
 
@@ -130,14 +131,14 @@ def instances(tier, seed):
     return out
 
 
-BOUNDS = dict(history="1 operation (all 31 of the catalogue, in a context and at top level), seeded pairs (thorough: triples)",
+BOUNDS = dict(history="1 operation (all 33 of the catalogue, in a context and at top level), seeded pairs (thorough: triples)",
               fault="at the k-th call-out of the operation's site (array .shape / .dtype, custom flatten function, leaf __instancecheck__, wrapped function body, {expr}), k symbolic 0..7 (0 = no fault), class in {Exception subclass, KeyboardInterrupt, GeneratorExit}",
               shapes="history arrays: rank 2-3 with unbounded sizes; probes: rank 1-2 unbounded sizes")
 STUBS = c01.STUBS + ["TickArr / Node / RaisingLeaf: user-code stand-ins whose call-outs tick the fault counter"]
 ASSUMPTIONS = ["the injected exception is caught by the harness right after the operation",
                "jax tree_flatten (C++) runs concretely on the skeleton",
                "the shared annotation alias used by 'genalias' is the return annotation of an old-style decorated generator function"]
-REQUIRED_LABELS = {"probe-dtype", "probe-shape", "probe-ref", "probe-qmark-misuse", "probe-qmark-use", "probe-toplevel",
+REQUIRED_LABELS = {"probe-dtype", "probe-shape", "probe-ref", "probe-qmark-misuse", "probe-qmark-use", "probe-toplevel", "probe-structure",
                    "alias-dtype", "alias-shape"}
 REQUIRED_WITNESS = {"fault-UserError", "fault-KeyboardInterrupt", "fault-GeneratorExit", "op-completed"}
 BUDGET_S = {"quick": 200, "thorough": 1800}
@@ -253,6 +254,7 @@ def scenario(inst, V):
                         state["B"] = B2
                 if r is True and struct == "T":
                     state["T"] = True
+                    state["Tskel"] = skel if kind == "tree" else None
                 obs.append(str(r))
             elif kind == "call":
                 _, ck, site = h
@@ -284,6 +286,13 @@ def scenario(inst, V):
                         return "left"
                 arm("none", tag)
                 obs.append(str(guarded(blk)))
+            elif kind == "nestedunion":
+                # a structured PyTree as one member of a union leaf type: while the outer tree is
+                # flattened the inner check binds T and then fails; the outer check passes via `str`
+                import typing
+                ann = PyTree[typing.Union[PyTree[int, "T"], str]]
+                arm("none", tag)
+                obs.append(str(guarded(lambda: isinstance(("x", "y"), ann))))
             elif kind == "genalias":
                 g = {"ALIAS": ALIAS}
                 exec("def gen(x) -> ALIAS:\n    yield x\n", g)
@@ -342,6 +351,19 @@ def scenario(inst, V):
         t2 = (TickArr([s]), TickArr([s2]))
         r = c01.observe_check(t2, PyTree[jt.Float[TickArr, "?a"], "T2"])
         V.check("probe-qmark-use", r == D.ACC, got=str(r))
+        if in_ctx and not (state.get("T") and state.get("Tskel") is None):
+            # the structure name T: bound by the history to a known skeleton, or still free
+            bound = state.get("Tskel")
+            same = bound or "tuple3"
+            other = "node2" if same == "tuple3" else "tuple3"
+            ints = lambda sk: build_tree(sk, [1, 2, 3][:NLEAVES[sk]])
+            if bound:
+                r = c01.observe_check(ints(other), PyTree[int, "T"])
+                V.check("probe-structure", r == D.REJ, what="T is bound: another structure", got=str(r), bound=bound)
+            r = c01.observe_check(ints(same), PyTree[int, "T"])
+            V.check("probe-structure", r == D.ACC, what="T: the bound structure / first use", got=str(r), bound=bound)
+            r = c01.observe_check(ints(other), PyTree[int, "T"])
+            V.check("probe-structure", r == D.REJ, what="T: another structure afterwards", got=str(r), bound=bound)
 
     try:
         if in_ctx:
